@@ -347,6 +347,7 @@ func bwVariants(thorough bool) []bwVariant {
 		{name: "one thread", n: 2, threads: 1, schedule: []int{0, 0}},
 		{name: "observation weights (nested), one thread", n: 2, threads: 1, schedule: []int{0, 0}, meta: true},
 		{name: "two threads, both records on thread 1", n: 2, threads: 2, schedule: []int{1, 1}},
+		{name: "two threads, both records on thread 0 (thread 1 idle)", n: 2, threads: 2, schedule: []int{0, 0}},
 		{name: "two threads, one record each", n: 2, threads: 2, schedule: []int{1, 0}},
 		{name: "both states tied to one emission, one thread", n: 2, threads: 1, schedule: []int{0, 0}, stateMap: []int{0, 0}},
 	}
